@@ -156,7 +156,9 @@ pub fn create_container_ex(case: &ContCase, dir: &Path, name: &str, extras_dir: 
     let mut extras: Vec<ContentPackCreator<dyn jbk::creator::PackRecipient>> = vec![];
     let mut extra_addrs = vec![];
     for (i, ec) in case.extra.iter().enumerate() {
-        let epath = camino::Utf8PathBuf::from_path_buf(extras_dir.join(format!("extra{}.jbkc", i + 2))).map_err(|_| "utf8")?;
+        // (the second extra pack has a colon in its file name, hence in its recorded location: a location is a path, not a URL)
+        let ename = if i == 1 { format!("extra:{}.jbkc", i + 2) } else { format!("extra{}.jbkc", i + 2) };
+        let epath = camino::Utf8PathBuf::from_path_buf(extras_dir.join(ename)).map_err(|_| "utf8")?;
         let out: Box<dyn jbk::creator::PackRecipient> = jbk::creator::AtomicOutFile::new(&epath).map_err(|e| format!("extra out: {e}"))?;
         let mut c = ContentPackCreator::new_from_output(out, jbk::PackId::from(case.pack_id(i + 1)), vendor(), pack_free(case.dir.free, &format!("content:{}", case.pack_id(i + 1))).into(), ec.comp.to_jbk()).map_err(|e| format!("extra new: {e}"))?;
         let a = add_all(&mut c, ec, &inputs).map_err(|e| format!("extra add: {e}"))?;
